@@ -32,6 +32,7 @@
 
 //! Core implementation of build-in functions.
 
+use crate::builders::finite_number;
 use crate::evaluate_equals;
 use dmntk_feel::context::FeelContext;
 use dmntk_feel::values::Value::YearsAndMonthsDuration;
@@ -366,7 +367,7 @@ pub fn even(number_value: &Value) -> Value {
 /// Returns the Euler’s number e raised to the power of **value** given as a parameter.
 pub fn exp(value: &Value) -> Value {
   if let Value::Number(num) = value {
-    return Value::Number(num.exp());
+    return finite_number(num.exp());
   }
   value_null!("exp")
 }
@@ -696,7 +697,7 @@ pub fn modulo(dividend_value: &Value, divisor_value: &Value) -> Value {
       if divisor.abs() == FeelNumber::zero() {
         value_null!("[core::modulo] division by zero")
       } else {
-        Value::Number(dividend - divisor * (dividend / divisor).floor())
+        finite_number(dividend - divisor * (dividend / divisor).floor())
       }
     } else {
       invalid_argument_type!("modulo", "number", divisor_value.type_of())
